@@ -96,6 +96,76 @@ func condMentionsNotNil(info *types.Info, cond ast.Expr, v types.Object) bool {
 		}
 		return true
 	})
+	if found {
+		return true
+	}
+	// `!ok(…)` where ok is a closure of the function that files its error argument under v and reports `e == nil`
+	// (`written := func(inc int64, e error) bool { n += inc; err = e; return e == nil }`)
+	ast.Inspect(cond, func(n ast.Node) bool {
+		ue, ok := n.(*ast.UnaryExpr)
+		if !ok || ue.Op != token.NOT {
+			return true
+		}
+		call, ok := unparen(ue.X).(*ast.CallExpr)
+		if !ok {
+			return true
+		}
+		id, ok := unparen(call.Fun).(*ast.Ident)
+		if !ok {
+			return true
+		}
+		lv, _ := info.Uses[id].(*types.Var)
+		lit := localFnLits[lv]
+		if lit == nil || lit.Type.Results == nil || len(lit.Type.Results.List) != 1 {
+			return true
+		}
+		// the literal: every return is `x == nil` with x == v or a parameter stored into v
+		stored := map[types.Object]bool{v: true}
+		ast.Inspect(lit.Body, func(m ast.Node) bool {
+			if as, ok := m.(*ast.AssignStmt); ok && len(as.Lhs) == len(as.Rhs) {
+				for i, l := range as.Lhs {
+					if identObj(info, l) == v {
+						if o := identObj(info, as.Rhs[i]); o != nil {
+							stored[o] = true
+						}
+					}
+				}
+			}
+			return true
+		})
+		rets, good := 0, true
+		ast.Inspect(lit.Body, func(m ast.Node) bool {
+			if _, ok := m.(*ast.FuncLit); ok {
+				return false
+			}
+			if r, ok := m.(*ast.ReturnStmt); ok {
+				rets++
+				if len(r.Results) != 1 {
+					good = false
+					return true
+				}
+				be, ok := unparen(r.Results[0]).(*ast.BinaryExpr)
+				if !ok || be.Op != token.EQL {
+					good = false
+					return true
+				}
+				var x ast.Expr
+				if isNilIdent(be.Y) {
+					x = be.X
+				} else if isNilIdent(be.X) {
+					x = be.Y
+				}
+				if x == nil || !stored[identObj(info, x)] {
+					good = false
+				}
+			}
+			return true
+		})
+		if rets > 0 && good {
+			found = true
+		}
+		return true
+	})
 	return found
 }
 
